@@ -60,6 +60,7 @@ type FuncContract struct {
 	Wraps    bool      // arithmetic intentionally wraps (int mode: no overflow obligations)
 	Decoder  bool      // C11: inputs unconstrained, termination mandatory
 	IgnoreChan bool    // channel sends are no-ops (explicit assumption)
+	AssumePre  map[string]bool // callees whose preconditions are assumed, not checked, in this function
 	Abstract []string  // abstracted instruction patterns
 	Ghost    []GhostDecl
 	GhostAt  []*GhostAt
@@ -150,7 +151,7 @@ var clauseKW = map[string]bool{
 	"func": true, "spec": true, "lemma": true, "axiom": true, "trusted": true, "mode": true, "props": true,
 	"requires": true, "ensures": true, "modifies": true, "loop": true, "inline": true,
 	"pure": true, "nullable": true, "may_alias": true, "panics": true, "wraps": true,
-	"decoder": true, "abstract": true, "ghost": true, "terminates": true, "uninterp": true, "at": true, "opaque": true, "def": true, "table": true, "anymode": true, "uses": true, "embedded": true, "ghostfield": true, "channels": true,
+	"decoder": true, "abstract": true, "ghost": true, "terminates": true, "uninterp": true, "at": true, "opaque": true, "def": true, "table": true, "anymode": true, "uses": true, "embedded": true, "ghostfield": true, "channels": true, "assumes": true,
 }
 
 var reTag = regexp.MustCompile(`^(\w+)\[([A-Z0-9, ]+)\]`)
@@ -492,6 +493,18 @@ func (cs *Contracts) ParseContractFile(path, pkgPath string) error {
 				cur.MayAlias = true
 			case "wraps":
 				cur.Wraps = true
+			case "assumes":
+				// "assumes pre Callee": the preconditions of Callee are assumed at its call sites in this
+				// function instead of being checked (they are the responsibility of this function's own
+				// callers, e.g. ordering conditions over a history); listed as an assumption
+				f := strings.Fields(rest)
+				if len(f) != 2 || f[0] != "pre" {
+					return fail("expected 'assumes pre <callee>'")
+				}
+				if cur.AssumePre == nil {
+					cur.AssumePre = map[string]bool{}
+				}
+				cur.AssumePre[f[1]] = true
 			case "channels":
 				// "channels ignored": channel sends in this function are treated as no-ops (what the
 				// receiving goroutine does is outside the contract); listed as an assumption
